@@ -3,7 +3,13 @@ type nat =
 | O
 | S of nat
 
+val fst : ('a1 * 'a2) -> 'a1
+
 val snd : ('a1 * 'a2) -> 'a2
+
+val length : 'a1 list -> nat
+
+val app : 'a1 list -> 'a1 list -> 'a1 list
 
 type comparison =
 | Eq
@@ -23,6 +29,11 @@ type z =
 | Z0
 | Zpos of positive
 | Zneg of positive
+
+module Nat :
+ sig
+  val eqb : nat -> nat -> bool
+ end
 
 module Pos :
  sig
@@ -135,11 +146,17 @@ module Z :
   val lcm : z -> z -> z
  end
 
+val nth_error : 'a1 list -> nat -> 'a1 option
+
 val map : ('a1 -> 'a2) -> 'a1 list -> 'a2 list
 
 val fold_left : ('a1 -> 'a2 -> 'a1) -> 'a2 list -> 'a1 -> 'a1
 
 val forallb : ('a1 -> bool) -> 'a1 list -> bool
+
+val combine : 'a1 list -> 'a2 list -> ('a1 * 'a2) list
+
+val seq : nat -> nat -> nat list
 
 type q = { qnum : z; qden : positive }
 
@@ -168,6 +185,27 @@ val smt_div : z -> z -> z
 val smt_mod : z -> z -> z
 
 val divmod_def : z -> z -> z -> z -> bool
+
+type dm_kind =
+| KDiv
+| KMod
+
+type dm_app = (dm_kind * nat) * z
+
+val key_eqb : (nat * z) -> (nat * z) -> bool
+
+val cache_find : (nat * z) list -> (nat * z) -> nat -> nat option
+
+val rw_apps :
+  (nat * z) list -> dm_app list -> (nat * z) list * (nat * dm_kind) list
+
+val app_val : (nat -> z) -> dm_app -> z
+
+val aux_val : (nat -> z * z) -> (nat * dm_kind) -> z
+
+val rewritten_holds : (nat -> z) -> (nat -> z * z) -> dm_app list -> bool
+
+val canon_sigma : (nat -> z) -> (nat * z) list -> nat -> z * z
 
 type bound_pair = { bp_upper : z; bp_lower : z }
 
